@@ -60,6 +60,9 @@ def gen_scenario(r, sid, masked):
     rr = random.Random(r.random())      # own stream: the base scenario of a seed stays what it was
     two = rr.random() < 0.5             # every trigger type declared by two decorators (guards belong to all of them)
     bursts = rr.random() < 0.5
+    # somebody else watches a and b for a while and then stops (a task.wait_until that times out): afterwards the guard
+    # must still be judged on the entities' current values, although nobody watches b any more
+    tmpw = rr.choice([NONE, 3, 4, 6, 9])
     while True:
         t += r.choice([1, 1, 2, 3])
         if t >= horizon:
@@ -85,7 +88,7 @@ def gen_scenario(r, sid, masked):
             events.append({"t": t, "k": "call", "e": "-", "s": {"v": "-", "x": "-"}})
     return {"sid": sid, "wins": wins, "ho": ho, "sa": sa, "taFirst": (r.random() < 0.5) and not masked,
             "init": {"a": {"v": r.choice("01"), "x": "p"}, "b": {"v": r.choice("01"), "x": "p"}},
-            "events": events, "time_secs": time_secs, "horizon": horizon, "masked": masked, "two": two}
+            "events": events, "time_secs": time_secs, "horizon": horizon, "masked": masked, "two": two, "tmpw": tmpw}
 
 
 def source(scn):
@@ -108,9 +111,13 @@ def source(scn):
         ta = "@time_active(%s)" % ", ".join(args)
     sa = '@state_active("%s")' % scn["sa"]["src"] if scn["sa"] else None
     guards = [x for x in ((ta, sa) if scn["taFirst"] else (sa, ta)) if x]
+    tmp = ""
+    if scn.get("tmpw", NONE) != NONE:
+        tmp = ("\n@time_trigger('startup')\ndef tmp_watch():\n"
+               "    task.wait_until(state_trigger=\"pyscript.b == 'never' or pyscript.a == 'never'\", timeout=%d)\n" % scn["tmpw"])
     return "\n".join(decs + guards) + (
         "\ndef f(trigger_type=None, **kw):\n    vf.rec('run', trigger_type)\n\n"
-        "@service\ndef callf():\n    f(trigger_type='direct')\n")
+        "@service\ndef callf():\n    f(trigger_type='direct')\n") + tmp
 
 
 def run_case(scn, legacy):
